@@ -378,7 +378,7 @@ pub fn in_set(v: &RV, s: &SetLit) -> bool {
 /// Semantics of the harness function family on harness values.
 pub fn apply_sem(sem: Sem, args: &[RRes]) -> Option<RV> {
     match sem {
-        Sem::Ident => args[0].clone().ok(),
+        Sem::Ident | Sem::Own => args[0].clone().ok(),
         Sem::Len => match &args[0] {
             Ok(RV::Bytes(b)) => Some(RV::Int(b.len() as i64)),
             Ok(RV::Array(_, xs)) => Some(RV::Int(xs.len() as i64)),
